@@ -12,6 +12,7 @@ Close Scope Z_scope.
 Open Scope nat_scope.
 
 (** change detectors: label = segment number; length n; exact round trip *)
+From SK Require Import Check.ConvertCheck Proofs.CheckerSoundness.
 Theorem C05_change_dense_label : forall n cpts i, cpts_ok n cpts -> i < n ->
   nth i (cd_s2d n cpts) 0 = length (filter (fun c => c <=? i) cpts).
 Proof. exact cd_s2d_label. Qed.
@@ -70,3 +71,17 @@ Print Assumptions C05_subset_dense_label.
 Print Assumptions C05_subset_roundtrip.
 Print Assumptions C05_subset_columns_same_set.
 Print Assumptions C05_adjacent_roundtrip_refuted.
+
+(** ---- added: statements re-derived from the lemma files by tools/append_props.py ---- *)
+Theorem C05_change_checker_sound : forall (n : nat) (cpts dense back : list nat), cd_case_ok (n, cpts, dense, back) = true -> cd_s2d n cpts = dense /\ cd_d2s dense = back /\ back = cpts.
+Proof. exact @cd_case_ok_sound. Qed.
+
+Theorem C05_anomaly_checker_sound : forall (n : nat) (ivs : list (nat * nat)) (dense : list nat) (back : list (nat * nat)), ca_case_ok (n, ivs, dense, back) = true -> ca_s2d n ivs = dense /\ ca_d2s dense = back /\ back = ivs.
+Proof. exact @ca_case_ok_sound. Qed.
+
+Theorem C05_subset_checker_sound : forall (n p : nat) (anoms : list anom3) (dense : list (list nat)) (back : list anom3), sub_case_ok (n, p, anoms, dense, back) = true -> sub_s2d n p anoms = dense /\ sub_d2s p dense = map (norm_cols p) back /\ map (norm_cols p) back = map (norm_cols p) anoms.
+Proof. exact @sub_case_ok_sound. Qed.
+
+Print Assumptions C05_change_checker_sound.
+Print Assumptions C05_anomaly_checker_sound.
+Print Assumptions C05_subset_checker_sound.
